@@ -705,7 +705,11 @@ func scenarioPinTime() int {
 			t0 := time.Duration(g.R.Intn(1200)) * time.Millisecond
 			evs = append(evs, ptEvent{at: t0, d: d, what: "establish", arg: plan})
 			frac := func(lo, hi int) time.Duration {
-				return time.Duration(int64(d.life) * int64(lo+g.R.Intn(hi-lo+1)) / 100)
+				span := d.life
+				if span > 10*time.Second {
+					span = timeout // subscribe pins live 600 s: their steps are scheduled on the scale of the run
+				}
+				return time.Duration(int64(span) * int64(lo+g.R.Intn(hi-lo+1)) / 100)
 			}
 			switch plan {
 			case "bye":
